@@ -34,7 +34,7 @@ func oracle(os optSet, input string, r scanRes) (vs [][2]string) {
 		return vs
 	}
 	// clause 4: gaps
-	g := &gapper{in: input, hash: os.o.HashComments, memo: map[string]bool{}}
+	g := &gapper{in: input, hash: os.o.HashComments, memo: map[string]bool{}, gocmd: os.o.GoCommand}
 	delim, off := ";", 0
 	if d, n, ok := headerDirective(input); ok {
 		delim, off = d, n
@@ -66,7 +66,111 @@ func oracle(os optSet, input string, r scanRes) (vs [][2]string) {
 			cur = to + len(r.stmts[i].Text)
 		}
 	}
+	// not judged: a first line "-- atlas:delimiter ..." that mentions "atlas:" a second time (the greedy
+	// first group of reDirective then does not see a delimiter directive and the line is an ordinary
+	// comment; which reading is intended is not settled by the property).
+	if len(vs) == 0 && !os.o.GoCommand && !(off > 0 && strings.Count(input[:off], "atlas:") > 1) {
+		vs = append(vs, commentsOracle(os, input, r, off, delim)...)
+	}
 	return vs
+}
+
+// clause "comments" (round 5; theorem: the GapCs premise of LosslessG): Stmt.Comments is the comment
+// group that the gap before the statement leaves - starting empty after the previous statement,
+// white space keeps the group, a terminated comment is appended unless an empty line follows it
+// (then the group is emptied), a DELIMITER command line empties it. Own deterministic reading of
+// the gap; when the gap cannot be read that way (a delimiter that looks like a comment opener or
+// like white space) the clause is not judged.
+func commentsOracle(os optSet, input string, r scanRes, off int, delim string) (vs [][2]string) {
+	cur := off
+	for i, s := range r.stmts {
+		exp, nd, ok := expectedComments(input, cur, s.Pos, delim, os.o.HashComments, i == 0)
+		if !ok {
+			return vs
+		}
+		delim = nd
+		same := len(exp) == len(s.Comments)
+		for k := 0; same && k < len(exp); k++ {
+			same = exp[k] == s.Comments[k]
+		}
+		if !same {
+			vs = append(vs, [2]string{"comments", fmt.Sprintf("stmt %d (Pos %d): Comments %q, the gap before it leaves the group %q", i, s.Pos, s.Comments, exp)})
+		}
+		cur = s.Pos + len(s.Text)
+	}
+	return vs
+}
+
+func skipWS(in string, i, to int) int {
+	for i < to {
+		r, w := utf8.DecodeRuneInString(in[i:to])
+		if !unicode.IsSpace(r) {
+			break
+		}
+		i += w
+	}
+	return i
+}
+
+func expectedComments(in string, from, to int, delim string, hash, first bool) (cs []string, nd string, ok bool) {
+	i := from
+	if !first {
+		// the rest of the raw statement: white space, then possibly the delimiter in force
+		if r, _ := utf8.DecodeRuneInString(delim); delim == "" || unicode.IsSpace(r) || strings.ContainsRune("-/#dD", r) {
+			return nil, "", false
+		}
+		if j := skipWS(in, i, to); strings.HasPrefix(in[j:to], delim) {
+			i = j + len(delim)
+		}
+	}
+	for {
+		i = skipWS(in, i, to)
+		if i >= to {
+			return cs, delim, i == to
+		}
+		s := in[i:]
+		switch {
+		case strings.HasPrefix(s, "--") || (hash && strings.HasPrefix(s, "#")):
+			j := strings.IndexByte(s, '\n')
+			if j < 0 {
+				return nil, "", false
+			}
+			if strings.HasPrefix(s[j+1:], "\n") {
+				cs = nil
+			} else {
+				cs = append(cs, s[:j+1])
+			}
+			i += j + 1
+		case strings.HasPrefix(s, "/*"):
+			j := strings.Index(s[2:], "*/")
+			if j < 0 {
+				return nil, "", false
+			}
+			if strings.HasPrefix(s[j+4:], "\n\n") {
+				cs = nil
+			} else {
+				cs = append(cs, s[:j+4])
+			}
+			i += j + 4
+		case len(s) > 10 && strings.EqualFold(s[:10], "delimiter "):
+			j := strings.IndexByte(s, '\n')
+			e := j + 1
+			if j < 0 {
+				j, e = len(s), len(s)
+			}
+			d := strings.TrimSpace(s[10:j])
+			if len(d) > 1 && d[0] == '\'' && d[len(d)-1] == '\'' {
+				d = strings.ReplaceAll(d[1:len(d)-1], "''", "'")
+			}
+			if d == "" {
+				return nil, "", false
+			}
+			delim, cs = unesc(d), nil
+			i += e
+		default:
+			return nil, "", false
+		}
+	}
 }
 
 // headerDirective: "-- atlas:delimiter <d>" on the first line (independent reading of the
@@ -102,6 +206,7 @@ type gapper struct {
 	in   string
 	hash bool
 	memo map[string]bool
+	gocmd bool // GoCommand sets (round 5): a GO batch separator at a line start is a gap segment
 }
 
 // gap returns the delimiters in force after input[from:to] when that range can be read as a
@@ -140,6 +245,11 @@ func (g *gapper) gap(from, to int, delim string, first bool) []string {
 				rec(i+2+j+2, d, false)
 			}
 		}
+		if g.gocmd && lineStart && len(s) >= 2 && strings.EqualFold(s[:2], "GO") {
+			if n := goLen(g.in[i:]); n > 0 && i+n <= to {
+				rec(i+n, d, true)
+			}
+		}
 		if len(s) > 10 && strings.EqualFold(s[:10], "delimiter ") {
 			j := strings.IndexByte(s, '\n')
 			e := j + 1
@@ -164,4 +274,63 @@ func (g *gapper) gap(from, to int, delim string, first bool) []string {
 		out = append(out, d)
 	}
 	return out
+}
+
+// goLen: the length of the GO batch separator at the start of s as the scanner consumes it ("GO", then -
+// only if a blank follows - the rest of the line with its newline); 0 = no separator here.
+func goLen(s string) int {
+	if len(s) < 2 || !strings.EqualFold(s[:2], "GO") {
+		return 0
+	}
+	if len(s) == 2 {
+		return 2
+	}
+	if s[2] == ' ' {
+		if j := strings.IndexByte(s, '\n'); j >= 0 {
+			return j + 1
+		}
+		return len(s)
+	}
+	if s[2] == '\t' || s[2] == '\n' || s[2] == '\f' || s[2] == '\r' {
+		return 2
+	}
+	return 0
+}
+
+// unshiftGo (round 5; theorem C08_lossless_all_options_except): with GoCommand the reported Pos of a statement
+// that ends at a GO separator is its offset plus the length of that separator. Returns the statements with the
+// offsets corrected, how many were shifted, and false when some Text is neither at its Pos nor explained that way.
+func unshiftGo(in string, r scanRes) (scanRes, int, bool) {
+	out := r
+	out.stmts = nil
+	shifted := 0
+	for _, s := range r.stmts {
+		c := *s
+		if s.Pos >= 0 && s.Pos+len(s.Text) <= len(in) && in[s.Pos:s.Pos+len(s.Text)] == s.Text && goLen(in[skipWS(in, s.Pos+len(s.Text), len(in)):]) == 0 {
+			out.stmts = append(out.stmts, &c)
+			continue
+		}
+		found := false
+		for p0 := s.Pos; p0 >= 0 && p0 >= s.Pos-4096 && !found; p0-- {
+			if p0+len(s.Text) > len(in) || in[p0:p0+len(s.Text)] != s.Text {
+				continue
+			}
+			j := skipWS(in, p0+len(s.Text), len(in))
+			if n := goLen(in[j:]); n > 0 && p0+n == s.Pos {
+				c.Pos, found = p0, true
+				if n > 0 && p0 != s.Pos {
+					shifted++
+				}
+			}
+		}
+		if !found {
+			if s.Pos >= 0 && s.Pos+len(s.Text) <= len(in) && in[s.Pos:s.Pos+len(s.Text)] == s.Text {
+				found = true // at its Pos, a GO follows but belongs to the next (empty) statement
+			} else {
+				return r, 0, false
+			}
+		}
+		out.stmts = append(out.stmts, &c)
+	}
+	return out, shifted, true
 }
